@@ -192,8 +192,7 @@ Proof.
 Qed.
 
 (* ---- re-applying a rule object ---- *)
-Lemma fst_assert_applies g (c : @cfg comp) :
-  fst (assert_applies ceqb rmatch g c) = if c_any c && (c_should c || c_only c) then c else convert_aliases ceqb c.
+Lemma fst_assert_applies g (c : @cfg comp) : fst (assert_applies ceqb rmatch g c) = c.
 Proof.
   unfold assert_applies. destruct (c_any c && (c_should c || c_only c)); [reflexivity|].
   destruct (negb (required_present _)); [reflexivity|]. destruct (negb (behavior_consistent _)); reflexivity.
@@ -203,12 +202,6 @@ Qed.
    on every architecture: rule objects can be re-applied, and applied to several architectures *)
 Theorem reapply_same g g' (c : @cfg comp) :
   snd (assert_applies ceqb rmatch g' (fst (assert_applies ceqb rmatch g c))) = snd (assert_applies ceqb rmatch g' c).
-Proof.
-  rewrite fst_assert_applies. destruct (c_any c && (c_should c || c_only c)) eqn:Eg; [reflexivity|].
-  assert (Hany : c_any (convert_aliases ceqb c) = false) by (unfold convert_aliases; destruct (c_any c) eqn:E; [reflexivity|exact E]).
-  assert (Hfix : convert_aliases ceqb (convert_aliases ceqb c) = convert_aliases ceqb c).
-  { unfold convert_aliases at 1. rewrite Hany. reflexivity. }
-  unfold assert_applies. rewrite Hany, Eg. cbn [andb]. rewrite Hfix. reflexivity.
-Qed.
+Proof. rewrite fst_assert_applies. reflexivity. Qed.
 
 End PermProofs.
